@@ -25,6 +25,13 @@ def verify(qual, timeout_ms=20000, verbose=False):
         out['status'] = 'unsupported'
         out['reason'] = str(e)
         return out
+    except (AttributeError, TypeError, KeyError, IndexError, AssertionError, ValueError, NotImplementedError, z3.Z3Exception) as e:
+        # almost always a construct outside the supported subset reaching an unprepared code path of the
+        # generator: undecided (never a verdict); the traceback is kept in the evidence
+        out['status'] = 'unsupported'
+        out['reason'] = 'generator could not handle the function (%s: %s)' % (type(e).__name__, str(e)[:120])
+        out['traceback'] = traceback.format_exc()[-1200:]
+        return out
     except Exception as e:   # tool error: never a verdict
         out['status'] = 'error'
         out['reason'] = traceback.format_exc()
